@@ -480,12 +480,17 @@ def oracle(case, out):
         return "malformed result %r" % (out[:40],)
 
 
+MANIFEST = dict(
+    text="Unbounded Coq theorems (induction over every frame list, every schedule of the inner reader incl. zero reads and errors, every byte string, every program of sink operations with encoder failures at arbitrary positions and every writer script, every capacity/message list, every previous content of a reused receive buffer) about executable models of compio-io's framers, Framed sink/stream, ancillary builder/iterator and of compio-driver's multishot-RECVMSG result buffer; tied to the code on every run by exact differential correspondences: 9 operations on the real Framed (scripted reader/writer, a probe codec that fails after partial output) and AncillaryBuf/Builder/Iter (probe AncillaryData), and - runtime part, io_uring driver - real UDP / unix-socket datagrams with real ancillary data received by a multishot RECVMSG into reused pool buffers plus hostile buffer contents through RecvMsgMultiResult::new; independent oracles (fragmentation-free reference parser, each ok item framed on its own, slice-in-bounds, what was sent = what came back).",
+    note="Trusted: Coq kernel; ExtrOcamlBasic extraction + OCaml driver; the Rust harnesses (scripted reader/writer, probe codec and probe AncillaryData, aligned run-time control buffer; socket recipes and the canonical form of SCM_RIGHTS/SCM_CREDENTIALS data); std Vec growth policy (fixes read sizes only); libc 0.2.189 CMSG_* macros and cmsghdr layout for x86_64-linux-gnu and the io_uring_recvmsg_out buffer layout (name area 128) transcribed by hand into Cmsg.v / RecvMsgOut.v; kernel_fill is an environment model checked against the running kernel; MAX_LFL/FRAMED_RESERVE/NOOP_MAX_SIZE via consts.py. Codecs = BytesCodec and the probe codec (serde_json not modelled); AncillaryIter and RecvMsgMultiResult::new only for valid buffers (their unsafe contracts) - for other contents agreement and in-bounds slices are checked; control truncation (MSG_CTRUNC) is not exercised. Fixed defects: 6417e42, 22bb801, 004c7e7. No axioms. Known finding C13-lenfield-truncation is outside the theorem guard |payload| < 256^lfl, with a refuted-witness lemma.",
+    technique="Coq proof (induction over frames, fragments, schedules and sink programs; layout lemmas) + extracted-model differential correspondence (pure harness and io_uring runtime harness)")
+
+
 class C13(diffcheck.DiffProp):
     pid = "C13"
-    manifest = dict(
-        text="Unbounded Coq theorems (induction over every frame list, every schedule of the inner reader incl. zero reads and errors, every byte string, every capacity/message list) about an executable model of compio-io's framers, Framed sink/stream and ancillary builder/iterator; tied to the code on every run by an exact differential correspondence over 7 operations (real Framed over a scripted reader; real AncillaryBuf/Builder/Iter with a probe AncillaryData) plus an independent oracle (fragmentation-free reference parser; slice-in-bounds).",
-        note="Trusted: Coq kernel; ExtrOcamlBasic extraction + OCaml driver; the Rust harness (scripted reader/writer, probe type, aligned run-time control buffer); std Vec growth policy (fixes read sizes only); libc 0.2.189 CMSG_* macros and cmsghdr layout for x86_64-linux-gnu transcribed by hand into Cmsg.v; MAX_LFL/FRAMED_RESERVE/NOOP_MAX_SIZE via consts.py. Codec = BytesCodec (serde_json not modelled); AncillaryIter only for valid buffers (its unsafe contract). No axioms. Known finding C13-lenfield-truncation is outside the theorem guard |payload| < 256^lfl, with a refuted-witness lemma.",
-        technique="Coq proof (induction over frames, fragments and schedules) + extracted-model differential correspondence")
+    evidence_name = "C13"
+    corpus_name = "C13"
+    manifest = MANIFEST
     prop_file = "prop/C13.v"
     model_name = "c13"
     harness_bin = "c13"
@@ -499,7 +504,10 @@ class C13(diffcheck.DiffProp):
             "both byte orders, AnyDelimited 1..3 byte delimiters, CharDelimited with 1..4 byte chars, NoopFramer), "
             "hostile byte streams and hostile buffers through Framer::extract, control-message lists through "
             "AncillaryBuilder/AncillaryIter with buffer sizes 0..96 and 128, raw control buffers (well-formed, "
-            "truncated, lying cmsg_len); distinct = distinct case lines; non-trivial = not rejected, no panic, "
+            "truncated, lying cmsg_len), programs of feed/send/flush/close on the Framed sink with a codec that fails "
+            "after k bytes on flagged items against a scripted writer (short writes, Pending, Interrupted, errors, "
+            "Ok(0)) with every framer, byte streams through a decoder that rejects some frames; "
+            "distinct = distinct case lines; non-trivial = not rejected, no panic, "
             "at least one frame/message/byte produced")
     trusted_base = [
         "Coq 8.16.1 kernel (coqc, full .vo build); vm_compute only in witness/example lemmas",
@@ -517,7 +525,10 @@ class C13(diffcheck.DiffProp):
         "the inner reader obeys the AsyncRead contract: returns n <= capacity, writes at the start of the writable "
         "region and records n via advance_to; Ok(0) means end of file",
         "the inner writer is driven by write_all, which hands over the whole buffer (C11_write_all)",
-        "codec = BytesCodec (identity on bytes); the serde_json codec is not modelled",
+        "codecs = BytesCodec (identity on bytes) and the harness' probe codec (fails after writing k bytes / rejects "
+        "frames starting with 255); the serde_json codec is not modelled",
+        "a Pending answer of the writer only makes the write future yield and be polled again (dropped from the "
+        "writer script in the model); flush/shutdown of the scripted writer succeed",
         "control buffers given to AncillaryIter::new are valid (its unsafe contract): built by AncillaryBuilder or by "
         "the kernel; for other byte strings only model/implementation agreement is checked",
         "futures are driven by futures-executor::block_on on one thread",
@@ -541,4 +552,34 @@ class C13(diffcheck.DiffProp):
         return None
 
 
-PROP = C13()
+
+import p_c13rt  # noqa: E402
+
+
+class C13All:
+    """C13 = pure part (harness pure/c13: framers, Framed sink/stream, ancillary codec) + runtime part
+    (harness rt/c13rt: multishot RECVMSG result buffer on the io_uring driver); one evidence file"""
+    pid = "C13"
+    manifest = MANIFEST
+    prop_file = "prop/C13.v"
+    model_name = "c13"
+    harness_bin = "c13"
+    package = "pure"
+    model_names = ["c13", "c13rt"]
+    harness_bins = [("c13", "pure"), ("c13rt", "rt")]
+
+    def __init__(self):
+        self.parts = [C13(), p_c13rt.C13RT()]
+        self.gen = self.parts[0].gen
+
+    def oracle(self, case, out):
+        return self.parts[0].oracle(case, out)
+
+    def known(self, case, out, what):
+        return self.parts[0].known(case, out, what)
+
+    def run(self, tier, seed, replay=None):
+        return diffcheck.run_multi("C13", self.parts, tier, seed, replay)
+
+
+PROP = C13All()
